@@ -22,7 +22,7 @@ RULE = ('Seeded structured programs (C01 generator, extended with label/jump/jum
         'by blanks) at any subset of the white-space gaps outside string literals. Oracle: parse_script(rewritten) == parse_script(original) '
         '(deep equality); parsing A, B, A again gives equal models; a sample is re-parsed in a fresh process. Non-trivial: the rewrite '
         'changed the text and contains at least one continuation or chunk cut. Distinct by rewritten text.')
-RULE += ' Also: white space / continuation directly after `[` of a bracketed name, lines that hold only the continuation character, LF and CRLF mixed in one text; the models of separate parse_script calls share no objects and scribbling over a returned model does not change the next parse.'
+RULE += ' Every rewritten text is also parsed with other start_line_number values (0, negative, large): the model must not depend on it. Also: white space / continuation directly after `[` of a bracketed name, lines that hold only the continuation character, LF and CRLF mixed in one text; the models of separate parse_script calls share no objects and scribbling over a returned model does not change the next parse.'
 ASSUMPTIONS = [
     'continuations are only inserted where the source already has white space outside string literals and [bracketed names]',
     'existing continued runs of the shipped scripts are kept intact (rewrites apply to the other lines)',
@@ -158,6 +158,9 @@ def chunked(rnd, text, nl):
     return chunks, form
 
 
+START_LINE_NUMBERS = [0, -1, -2, 7, 2, -5, 1000, -3]
+
+
 def parse(inp, form='string'):
     if form == 'tuple':
         inp = tuple(inp)
@@ -183,6 +186,21 @@ def check_rewrite(original, rewritten, chunks, form, name):
         m2 = parse(list(chunks), form)
         if m2 != base:
             raise Violation('passing %s as %s of %d chunks changes the result: %s' % (name, form, len(chunks), _diff(base, m2)), d, 'chunking-changes-model')
+    # the number given to the first line only labels error messages: the model is the same for every start_line_number
+    start = (len(rewritten) * 7 + len(original)) % len(START_LINE_NUMBERS)
+    for n in (START_LINE_NUMBERS[start], START_LINE_NUMBERS[(start + 3) % len(START_LINE_NUMBERS)]):
+        for what, inp in (('rewritten text', rewritten), ('chunks', list(chunks) if isinstance(chunks, list) else None)):
+            if inp is None:
+                continue
+            try:
+                mn = impl.bs.parse_script(inp, n)
+            except impl.bs.ParserError as e:
+                mn = ('parser-error', e.error, e.line_number)
+            except Exception as e:  # pylint: disable=broad-except
+                mn = ('exception', type(e).__name__, str(e)[:100])
+            if mn != base:
+                raise Violation('parsing the %s of %s with start_line_number=%d changes the result: %s' % (what, name, n, _diff(base, mn)), dict(d, start_line_number=n),
+                                'start-line-number-changes-model')
     again = parse(original)
     if again != base:
         raise Violation('parsing the same text twice (another parse in between) gives different models', d, 'stateful')
